@@ -149,6 +149,28 @@ def core_check(ctx, n, ios=False, stepwise=False):
             bad.append(dict(model_vs_impl=cm, model_diverges=mm, impl_diverges=im, device=jobs[i]['device'],
                             netspoc=jobs[i]['netspoc'], stdout=res[i]['out'], ranges=rs[i], family=model))
     sample = dict(device=jobs[used[0]]['device'], netspoc=jobs[used[0]]['netspoc'], stdout=res[used[0]]['out']) if used else None
+    if ios and not stepwise:
+        # second compare: the ACL the device holds after the commands, against the same target
+        from vlib.cisco import parse_coq_term
+        text = ('From Coq Require Import List NArith.\nFrom NA Require Import %s.\nImport ListNotations.\n'
+                'Definition V := Eval vm_compute in ios_finals %s.\nPrint V.\n' % (mod, C.clist(items)))
+        fin = parse_coq_term(ctx.coq_eval('fin_%s' % model, text))
+        jobs2, idx2 = [], []
+        for k, i in enumerate(used):
+            if v[3 * k + 2] or not fin[k]:
+                continue
+            ents = [(int(b), int(lg)) for (_a, (b, lg)) in fin[k]]
+            jobs2.append(dict(model=model, device=K.render(cfg(ents), ios, True), netspoc=jobs[i]['netspoc']))
+            idx2.append(i)
+        for i, j2, r2 in zip(idx2, jobs2, drcrun.run_many(ctx, jobs2)):
+            if r2['rc'] != 0 or r2['out'].strip():
+                body = [l for l in r2['out'].split('\n') if l.strip() and not l.startswith('ip access-list ')]
+                fnd = None
+                if r2['rc'] == 0 and body and all('\\N ' in l for l in body) and ' remark ' in (jobs[i]['device'] + jobs[i]['netspoc']):
+                    fnd = 'F-C02-2'        # remark lines present, result already equivalent, only moves
+                bad.append(dict(model_vs_impl=0, model_diverges=0, impl_diverges=0, second_compare=r2['out'] or r2['err'][-300:], finding=fnd, device=jobs[i]['device'],
+                                netspoc=jobs[i]['netspoc'], stdout=res[i]['out'], second_device=j2['device'], ranges=rs[i], family=model))
+        ctx.notes.append('IOS line core: %d second compares on the resulting ACL' % len(jobs2))
     if stepwise:
         import random as _r
         npk = 24
@@ -238,7 +260,11 @@ def main(ctx, prop):
                         failing.append(dict(what='%s: command %d of the script is refused: %s' % (fam, v[0], CC.WHY.get(v[1])),
                                             replay=CC.replay_of(prop, c), finding=None, key='refused%d' % v[1]))
                 elif prop == 'C07':
-                    if v[3]:
+                    if len(v) > 6 and v[6]:
+                        failing.append(dict(what='%s: the script names an object outside Netspoc\'s scope (premise of C07_frame_every_prefix fails)%s'
+                                            % (fam, '; a strict device refuses command %d (%s)' % (v[0], CC.WHY.get(v[1])) if v[0] else ''),
+                                            replay=CC.replay_of(prop, c, dict(unmanaged=c['info'])), finding=None, key='names-unmanaged'))
+                    elif v[3]:
                         failing.append(dict(what='%s: command %d changes configuration outside Netspoc\'s scope' % (fam, v[3]),
                                             replay=CC.replay_of(prop, c, dict(unmanaged=c['info'])), finding=None, key='frame'))
                 elif prop == 'C14':
@@ -269,7 +295,13 @@ def main(ctx, prop):
             extra['core_cases'] = ncore
             extra['core_mismatches'] = len(bad)
             for b in bad:
-                if b['impl_diverges']:
+                if b.get('second_compare'):
+                    failing.append(dict(what='ACL line core: a second compare of the resulting ACL against the same target still reports changes',
+                                        replay=dict(property=prop, model=b['family'], command='drc -q device code/router; drc -q device2 code/router',
+                                                    files=dict(device=b['device'], netspoc=b['netspoc'], device2=b['second_device']), stdout=b['stdout'],
+                                                    second_compare=b['second_compare']),
+                                        finding=b.get('finding'), key='core-second'))
+                elif b['impl_diverges']:
                     failing.append(dict(what='ACL line core: the implementation\'s script does not turn the device ACL into (an equivalent of) the target ACL',
                                         replay=dict(property=prop, model=b['family'], command='drc -q device code/router',
                                                     files=dict(device=b['device'], netspoc=b['netspoc']), stdout=b['stdout']),
@@ -301,6 +333,14 @@ def main(ctx, prop):
                                         finding=st_['finding'], key='corestep'))
         if prop == 'C10':
             extra['resumed_prefix_states'] = sum(len(c.get('resume', [])) for c in allcases)
+            # NSX and PAN-OS: every cut of the request / command sequence, on the strict models of C04 / C03
+            from vlib import resume_ext
+            for fn, args in ((resume_ext.nsx_resume, (50, 14) if q == 0 else (900, 350)), (resume_ext.panos_resume, (40, 8) if q == 0 else (900, 350))):
+                fl, bl, st2 = fn(ctx, *args)
+                for f in fl:
+                    failing.append(dict(what=f['what'], replay=dict(f['replay'], property=prop), finding=f.get('finding'), key=f['what'][:60]))
+                breaks += bl
+                extra.update(st2)
         if prop == 'C07':
             # PAN-OS: nothing outside the targeted vsys; NSX: no object without the Netspoc prefix (simulated manager with foreign objects)
             from vlib import scope_ext
